@@ -10,8 +10,9 @@
  *                        bodies for variadic functions (snprintf, carquet_error_set).
  *   -DCQV_PT_WRITER    : additionally BODIES for the thrift_write_* functions that keep a ghost stack
  *                        of open structs and assert the parquet.thrift table (C13 writer conformance).
- *   -DCQV_PT_RLOG      : reserved (reader bodies serving one ghost field for the C13 parser-dispatch lemma);
- *                        NOT implemented yet - the define only removes the reader contracts.
+ *   -DCQV_PT_RLOG      : BODIES for the thrift_read_* functions: the FIRST thrift_read_field_begin call serves one
+ *                        ghost field (cqv_rl_type, cqv_rl_id), every later call returns false (all nested structs are
+ *                        empty); each reader / thrift_skip counts its calls (C13 parser dispatch lemma, C17 ids).
  *   -DCQV_PT_DECLS     : declarations / macros / extern ghost only (for inclusion in a harness).
  *
  * Reader contracts say only what every implementation of a compact-protocol reader over a
@@ -62,6 +63,13 @@ extern int cqv_w_root;                    /* kind of the outermost struct (set b
 #define CQV_W_POST (cqv_w_depth == __CPROVER_old(cqv_w_depth) && cqv_w_pend == 0 && \
     cqv_w_left[cqv_w_depth - 1] == __CPROVER_old(cqv_w_left[cqv_w_depth - 1]) - (__CPROVER_old(cqv_w_pend) == W_STRUCT ? 0 : 1) && \
     cqv_w_next == ((__CPROVER_old(cqv_w_pend) != W_STRUCT && cqv_w_left[cqv_w_depth - 1] > 0) ? __CPROVER_old(cqv_w_next) : 0))
+
+/* ---- C13 parser dispatch (-DCQV_PT_RLOG): one ghost field and a call log ---- */
+extern int cqv_rl_type; extern int cqv_rl_id;      /* the ghost field (wire type, id), chosen by the harness */
+extern int cqv_rl_count;                           /* list length served by thrift_read_list_begin (0..2) */
+extern int cqv_rl_calls;                           /* thrift_read_field_begin calls so far */
+extern int cqv_rl_n_byte, cqv_rl_n_i16, cqv_rl_n_i32, cqv_rl_n_i64, cqv_rl_n_bool, cqv_rl_n_bin, cqv_rl_n_list,
+           cqv_rl_n_skip, cqv_rl_skip_type, cqv_rl_n_begin, cqv_rl_n_end;
 
 #ifdef CQV_ALLOC_NEVER_FAILS
 #define CQV_MAYFAIL(ret) ((ret) != NULL)
@@ -188,6 +196,33 @@ void carquet_error_set(carquet_error_t* error, carquet_status_t code, const char
     error->code = code;
   }
 }
+
+
+#ifdef CQV_PT_RLOG
+int cqv_rl_type, cqv_rl_id, cqv_rl_count, cqv_rl_calls;
+int cqv_rl_n_byte, cqv_rl_n_i16, cqv_rl_n_i32, cqv_rl_n_i64, cqv_rl_n_bool, cqv_rl_n_bin, cqv_rl_n_list,
+    cqv_rl_n_skip, cqv_rl_skip_type, cqv_rl_n_begin, cqv_rl_n_end;
+void thrift_decoder_init(thrift_decoder_t* dec, const uint8_t* data, size_t size) {
+  dec->reader.data = data; dec->reader.size = size; dec->reader.pos = 0;
+  dec->nesting_level = 0; dec->status = CARQUET_OK; dec->bool_pending = false;
+}
+int8_t thrift_read_byte(thrift_decoder_t* dec) { cqv_rl_n_byte++; return (int8_t)nondet_int(); }
+int16_t thrift_read_i16(thrift_decoder_t* dec) { cqv_rl_n_i16++; return (int16_t)nondet_int(); }
+int32_t thrift_read_i32(thrift_decoder_t* dec) { cqv_rl_n_i32++; return nondet_i32(); }
+int64_t thrift_read_i64(thrift_decoder_t* dec) { cqv_rl_n_i64++; return nondet_i64(); }
+bool thrift_read_bool(thrift_decoder_t* dec) { cqv_rl_n_bool++; return nondet_bool(); }
+const uint8_t* thrift_read_binary(thrift_decoder_t* dec, int32_t* length) { cqv_rl_n_bin++; *length = 0; return NULL; }
+void thrift_read_struct_begin(thrift_decoder_t* dec) { cqv_rl_n_begin++; }
+void thrift_read_struct_end(thrift_decoder_t* dec) { cqv_rl_n_end++; }
+bool thrift_read_field_begin(thrift_decoder_t* dec, thrift_type_t* type, int16_t* field_id) {
+  if (cqv_rl_calls++ == 0) { *type = (thrift_type_t)cqv_rl_type; *field_id = (int16_t)cqv_rl_id; return true; }
+  *type = THRIFT_TYPE_STOP; *field_id = 0; return false;
+}
+void thrift_read_list_begin(thrift_decoder_t* dec, thrift_type_t* elem_type, int32_t* count) {
+  cqv_rl_n_list++; *elem_type = (thrift_type_t)(nondet_unsigned() & 15); *count = cqv_rl_count;
+}
+void thrift_skip(thrift_decoder_t* dec, thrift_type_t type) { cqv_rl_n_skip++; cqv_rl_skip_type = (int)type; }
+#endif /* CQV_PT_RLOG */
 
 #ifdef CQV_PT_WRITER
 /* ---- C13 writer side: thrift_write_* as bodies that check the byte stream's STRUCTURE against parquet.thrift ---- */
